@@ -142,15 +142,30 @@ def _id_reused(trace):
   return None
 
 
+def _for_study(a, study):
+  """The same action on another study id."""
+  return a if study == 's' or len(a) < 2 or a[1] != 's' else (a[0], study) + tuple(a[2:])
+
+
 def run_scenario(sc):
-  """Worker: explores one scenario. sc = dict(kind, prefix, rpcs, bound, max_schedules)."""
+  """Worker: explores one scenario. sc = dict(kind, prefix, rpcs, bound, max_schedules[, study])."""
+  study = sc.get('study', 's')
   b, empty = backend(sc['kind'])
+  _canon = b.canon
+  b.canon = lambda: _canon(studies=(study,))
+  try:
+    return _run_scenario(sc, b, empty, study)
+  finally:
+    del b.canon
+
+
+def _run_scenario(sc, b, empty, study):
   b.restore(empty)
   sched.reset_locks(b.servicer)
   svc.CLOCK.now = svc.BASE_T
   b.env.__init__()
   for a in PREFIXES[sc['prefix']]:
-    svc.apply(b, a)
+    svc.apply(b, _for_study(a, study))
   snap = b.snapshot()
   pre = b.canon()
   old_ids = set()
@@ -159,7 +174,7 @@ def run_scenario(sc):
   _OLD_OPS.clear()
   for s_, c_, lst in dict(pre)['ops']:
     _OLD_OPS.update(dict(o)['name'] for o in lst)
-  acts = [RPCS[r] for r in sc['rpcs']]
+  acts = [_for_study(RPCS[r], study) for r in sc['rpcs']]
   # serial reference outcomes (every permutation, real code)
   serial = {}
   for perm in itertools.permutations(range(len(acts))):
@@ -251,6 +266,13 @@ def scenarios(ctx):
   if ctx.quick:
     out.append({'kind': 'ram', 'prefix': 'empty', 'rpcs': ['CreateStudy', 'CreateStudy'], 'bound': 2})
     out.append({'kind': 'sqlmem', 'prefix': 'empty', 'rpcs': ['CreateStudy', 'CreateStudy'], 'bound': 2})
+    # a study whose id ends in a blank (an unstripped line of a config file): every pair of a study-level and a trial-level call
+    study_level = ['SugA1', 'SugB1', 'Create', 'MdStudy', 'MdTrial1', 'Inactive', 'DeleteStudy']
+    trial_level = ['Complete1', 'Measure1', 'Stop1', 'Delete1', 'EarlyStop1']
+    for p in ('active1', 'req+active'):
+      for x in study_level:
+        for y in trial_level:
+          out.append({'kind': 'ram', 'prefix': p, 'rpcs': [x, y], 'bound': 1, 'study': 's '})
     # the SQL datastore (one shared connection, one open transaction): every pair once more on two prefixes
     for p in ('study', 'req+active'):
       for pair in itertools.combinations_with_replacement(names, 2):
